@@ -17,11 +17,14 @@ Definition I_cap (s : state) : Prop :=
   (maxr s = 0 -> loaded s = [] /\ cnt inpl (thr s) = 0) /\
   (0 < maxr s -> length (loaded s) + cnt inpl (thr s) <= maxr s).
 
+Lemma cnt_mono {A} (f g : A -> nat) l : (forall x, f x <= g x) -> cnt f l <= cnt g l.
+Proof. intros Hfg. induction l as [|h tl IH]; simpl; auto. specialize (Hfg h). lia. Qed.
+
 Lemma cnt_le_at {A} (f g : A -> nat) l t p :
   (forall x, f x <= g x) -> nth_error l t = Some p -> cnt f l + g p <= cnt g l + f p.
 Proof.
   intros Hfg. revert t; induction l as [|h tl IH]; intros [|t] E; simpl in *; try discriminate.
-  - inv E. assert (cnt f tl <= cnt g tl) by (clear; induction tl; simpl; auto; specialize (Hfg a); lia). lia.
+  - inv E. pose proof (cnt_mono f g tl Hfg). lia.
   - specialize (IH _ E). specialize (Hfg h). lia.
 Qed.
 
@@ -30,9 +33,6 @@ Proof. unfold inpl. induction p; simpl; auto. Qed.
 
 Lemma freshp_inpl p : freshp p <= inpl p.
 Proof. unfold freshp, inpl. induction p; simpl; auto. Qed.
-
-Lemma cnt_mono {A} (f g : A -> nat) l : (forall x, f x <= g x) -> cnt f l <= cnt g l.
-Proof. intros Hfg. induction l as [|h tl IH]; simpl; auto. specialize (Hfg h). lia. Qed.
 
 Lemma wake_freshp t' p : freshp (wake t' p) = freshp p.
 Proof. unfold freshp. rewrite wake_freshpc. reflexivity. Qed.
@@ -44,7 +44,7 @@ Lemma fire_cnt (f : runner -> nat) :
 Proof.
   intros Hf. induction rs as [|x tl IH]; intros i t'; simpl; auto.
   specialize (IH (S i) t'). destruct (fire tl (S i) t') as [tl' ps]. simpl in IH.
-  destruct (r_tm x) as [|[dl|]|]; simpl; auto. destruct (Z.leb dl t'); simpl; auto. rewrite Hf. auto.
+  destruct (r_tm x) as [|[dl|]|]; simpl; auto. destruct (Z.leb dl t'); simpl; auto.
 Qed.
 
 Lemma insert_length_absent l m r : lookup l m = None -> length (insert l m r) = S (length l).
@@ -84,14 +84,13 @@ Proof.
   destruct l as [sp|q0|m|d|t alt].
   - step_cases H; simpl; auto.
   - step_cases H; simpl; auto.
-  - step_cases H; simpl; sums I; simpl; lia.
+  - step_cases H; simpl; sums I; unfold freshp in *; simpl in *; lia.
   - step_cases H. rewrite tick_runners, tick_loaded, tick_thr, cnt_app, (fire_pcs_zero freshp), fire_cnt, wake_cnt;
       auto using wake_freshp; lia.
   - unfold step in H. destruct (nth_error (thr s) t) as [p|] eqn:Ep; try discriminate.
     pose proof (cnt_ge freshp _ _ _ Ep) as Ge.
     destruct p; step_cases H; simpl; unfold getq, getr in *;
-    try (sums Ep; unfold freshp in *; simpl in *;
-         repeat (erewrite cnt_upd_eq by eassumption);
+    try (repeat (erewrite (cnt_upd_eq livef) by eassumption); sums Ep; unfold freshp in *; simpl in *;
          repeat match goal with E : nth_error (runners s) _ = Some _ |- _ => pose proof (cnt_ge livef _ _ _ E); revert E end; intros;
          unfold livef in *; simpl in *;
          repeat match goal with E : r_closed _ = _ |- _ => rewrite E in * end; try lia; fail).
@@ -101,7 +100,7 @@ Proof.
       unfold qmodel, rmodel in *. rewrite A1 in F2. inv F2. rewrite (getf_some _ _ _ _ _ E) in F3. inv F3.
       change (length (insert (loaded s) (r_model r0) r)) with (length (insert (loaded s) (r_model r0) r)).
       pose proof (insert_length_absent _ _ r A2) as IL. unfold insert in IL. simpl in IL.
-      sums Ep. unfold freshp in *; simpl in *. erewrite cnt_upd_eq by eassumption.
+      erewrite (cnt_upd_eq livef) by eassumption. sums Ep. unfold freshp in *; simpl in *.
       pose proof (cnt_ge livef _ _ _ E). unfold livef in *. simpl in *. lia.
     + (* CEV of an already closed runner: impossible, it is registered in [loaded] *)
       exfalso. destruct (l2_cev s I2 _ _ _ Ep eq_refl) as (m3 & C1 & C2).
@@ -109,8 +108,56 @@ Proof.
     + (* CEV *)
       destruct (l2_cev s I2 _ _ _ Ep eq_refl) as (m3 & C1 & C2). unfold rmodel in C1. rewrite (getf_some _ _ _ _ _ E) in C1. inv C1.
       pose proof (remove_key_length_present _ _ _ (l2_nodup s I2) C2).
-      sums Ep. unfold freshp in *; simpl in *. erewrite cnt_upd_eq by eassumption.
+      erewrite (cnt_upd_eq livef) by eassumption. sums Ep. unfold freshp in *; simpl in *.
       pose proof (cnt_ge livef _ _ _ E). unfold livef in *. simpl in *. rewrite E1 in *. lia.
+Qed.
+
+Ltac bool_arith :=
+  repeat match goal with
+  | H : _ && _ = true |- _ => apply andb_prop in H; destruct H
+  | H : _ && _ = false |- _ => apply andb_false_iff in H
+  | H : Nat.ltb _ _ = true |- _ => apply Nat.ltb_lt in H
+  | H : Nat.ltb _ _ = false |- _ => apply Nat.ltb_ge in H
+  | H : Nat.leb _ _ = true |- _ => apply Nat.leb_le in H
+  | H : Nat.leb _ _ = false |- _ => apply Nat.leb_gt in H
+  | H : Nat.eqb _ _ = true |- _ => apply Nat.eqb_eq in H
+  | H : Nat.eqb _ _ = false |- _ => apply Nat.eqb_neq in H
+  | H : _ \/ _ |- _ => destruct H
+  end.
+
+Lemma I_cap_step : I_cap s -> I_cap s'.
+Proof.
+  unfold I_cap. intros [I0 I1]. destruct IO as [IP _]. fix_cfg c Hf. simpl in Hg.
+  destruct l as [sp|q0|m|d|t alt].
+  - step_cases H; simpl; auto.
+  - step_cases H; simpl; auto.
+  - step_cases H; simpl; rewrite cnt_snoc; unfold inpl at 2 4; simpl; rewrite !Nat.add_0_r; auto.
+  - step_cases H. rewrite tick_loaded, tick_maxr, tick_thr, cnt_app, (fire_pcs_zero inpl), wake_cnt;
+      auto using wake_inpl. rewrite Nat.add_0_r. auto.
+  - unfold step in H. destruct (nth_error (thr s) t) as [p|] eqn:Ep; try discriminate.
+    pose proof (cnt_ge inpl _ _ _ Ep) as Ge. pose proof (cnt_le_at inpl isP _ _ _ inpl_isP Ep) as Le.
+    destruct p; step_cases H; simpl; unfold getq, getr in *;
+    try (sums Ep; unfold inpl in *; simpl in *; bool_arith;
+         repeat match goal with E : loaded s = _ |- _ => rewrite E in * end;
+         split; intros; try (destruct I0 as [I0a I0b]; [lia|]); try specialize (I1 ltac:(lia)); simpl in *;
+         try split; try lia; auto; fail).
+    (* PLk: the pending loop decides to start a runner (or fails on a bad model file) *)
+    all: try (match goal with Ep : nth_error _ _ = Some (PLk _) |- _ => idtac end;
+      sums Ep; unfold inpl in *; simpl in *; bool_arith; rewrite IP in Le;
+      (destruct (Nat.eq_dec (maxr s) 0) as [Z0|NZ];
+       [ destruct (I0 Z0) as [L0 C0]; rewrite L0 in *; simpl in *; try congruence; split; intros; try split; auto; lia
+       | specialize (I1 ltac:(lia)); split; intros; try split; auto; lia ])).
+    (* PLd2 *)
+    all: try (match goal with Ep : nth_error _ _ = Some (PLd2 _ _) |- _ => idtac end;
+      destruct (l2_absent s I2 _ _ _ Ep eq_refl) as (mq' & A1 & A2);
+      destruct (l2_fresh s I2 _ _ _ _ Ep eq_refl) as (F1 & (mf & F2 & F3) & F4);
+      unfold qmodel, rmodel in *; rewrite A1 in F2; inv F2; rewrite (getf_some _ _ _ _ _ E) in F3; inv F3;
+      pose proof (insert_length_absent _ _ r A2) as IL; unfold insert in IL; simpl in IL;
+      sums Ep; unfold inpl in *; simpl in *; split; intros Hm;
+      [ destruct (I0 Hm) as [L0 C0]; lia | specialize (I1 Hm); lia ]).
+    (* CEV *)
+    all: pose proof (remove_key_length (loaded s) (r_model r0)); sums Ep; unfold inpl in *; simpl in *; split; intros Hm;
+      [ destruct (I0 Hm) as [L0 C0]; rewrite L0; simpl; split; auto; lia | specialize (I1 Hm); lia ].
 Qed.
 
 End Step.
